@@ -446,3 +446,25 @@ Example c08_callback_nonvacuous :
   /\ get (14, 0) (newmark s) = Some 11.
 Proof. split; [vm_compute; reflexivity|]. split; [vm_compute; reflexivity|]. split; [vm_compute; repeat constructor; simpl; tauto|].
   split; [vm_compute; repeat constructor; simpl; tauto|vm_compute; reflexivity]. Qed.
+
+(** the hypotheses of [model_passes_clauses_C08] hold of the example histories (answered + expired
+    requests; repeated context paused; module-owned context with callbacks), and on the cases the
+    driver would print for the model on them the whole checker answers "no divergence, no clause" *)
+Definition ex_univ : list (Z * Z) := flat_map (fun a => [(a, 0); (a, 1)]) [DEP; REQ; TAX; 0; 1; 2; 3; 4; 5; 6; 7].
+Definition ex_l0n : ledger := ledger_of (obs_of ex_univ 0 None [] (init 1 1000 ex_l0)).
+Example c08_model_passes_clauses_nonvacuous :
+  c_msvc ex_cfg < 0 /\ 0 <= c_tax ex_cfg /\ bal ex_l0n DEP BASE = 0 /\ bal ex_l0n REQ 0 = 0 /\ bal ex_l0n REQ 1 = 0
+  /\ Forall good_step ex_hist /\ Forall good_step ex_hist2 /\ Forall good_step ex_hist4
+  /\ (forall pre st post, ex_hist2 = pre ++ st :: post -> forall rid q, get rid (reqs (run ex_cfg (init 1 1000 ex_l0n) pre)) = Some q ->
+        In (TAX, q_fd q) ex_univ /\ In (REQ, q_fd q) ex_univ)
+  /\ ledger_of (obs_of ex_univ 0 None [] (init 1 1000 ex_l0n)) = ex_l0n
+  /\ check_all (model_case ex_univ ex_cfg 1 1000 ex_l0n ex_hist) = (-1, -1, 0, -1, 0)
+  /\ check_all (model_case ex_univ ex_cfg 1 1000 ex_l0n ex_hist2) = (-1, -1, 0, -1, 0)
+  /\ check_all (model_case ex_univ ex_cfg 1 1000 ex_l0n ex_hist4) = (-1, -1, 0, -1, 0).
+Proof.
+  split; [vm_compute; reflexivity|]. split; [vm_compute; discriminate|].
+  split; [reflexivity|]. split; [reflexivity|]. split; [reflexivity|].
+  split; [repeat constructor; vm_compute; discriminate|]. split; [repeat constructor; vm_compute; discriminate|].
+  split; [repeat constructor; vm_compute; discriminate|].
+  split; [apply fdsb_ok; vm_compute; reflexivity|]. repeat split; vm_compute; reflexivity.
+Qed.
